@@ -177,7 +177,10 @@ class LocationAction(object):
         last_fire = self.__stats.last_fire
         if last_fire != 0:
             time_since_last = ts - last_fire
-            if time_since_last < self.__fire_period_ns():
+            period_ns = self.__fire_period_ns()
+            # without a period there is nothing to wait for: a hit is then not refused for carrying a time before the
+            # last recorded fire (another thread fired in between, or the clock was set back)
+            if period_ns > 0 and time_since_last < period_ns:
                 return False
 
         return True
